@@ -28,6 +28,10 @@ add("C16",
     "Coq theorems for every size n: the comparison regenerated from each enforcement point (change_state, task reply, StartExecution/StartSyncExecution input, SendTaskSuccess output, Create/UpdateStateMachine definition on both front ends, history length) rejects exactly n > documented limit (and empty definitions); the state-output measure is the modelled json.dumps length. Boundary executions (L-2..L+2, one- and two-byte characters) through the real API and the real engine on the simulated fabric are compared in Coq with the specification and the regenerated comparison. Terminal-state outputs are not checked by the engine: known finding F19.",
     "Trusted: Coq kernel + vm_compute; translator (operators, constants, one guarded test per point); what each point measures is hand-stated and tied by boundary runs; 'every non-terminal path checks' is covered by executions per state type, not yet by an engine-model theorem.",
     "Coq proof over regenerated comparisons + boundary executions checked in Coq", "DESIGN.md section 6 (C16)")
+add("C08",
+    "Coq theorems: every UTC offset -23:59..+23:59 denotes the instant of the same date-time in Z notation minus the offset (all 2878 offsets checked inside Coq and lifted, for every date-time); for all instants, a Wait never fires before its target, fires exactly at it when delivered on time and at once when delivered late or redelivered; Task and Wait are cut exactly at the task / execution deadline. The hand-written timestamp parser is pinned to parse_rfc3339_datetime by digest and compared with it on every offset; Wait/Task executions on the virtual clock (delivery delays, crash and redelivery, Catch) are checked in Coq against the specification and the deadline model.",
+    "Trusted: Coq kernel + vm_compute; calendar arithmetic of datetime/strptime (tied by the exhaustive sweep, not proved); virtual clock makes float arithmetic exact; stale-timer clause is checked by the drain oracle of C03, uncatchability of the execution timeout by C07.",
+    "Coq proof (arithmetic + finite sweep lifted) + executions on a virtual clock checked in Coq", "DESIGN.md section 6 (C08)")
 DONE = [c["property_id"] for c in checks]
 m = {
  "version": 1,
